@@ -436,19 +436,32 @@ Record OI (p : p2p) (gs : list ghost) : Prop := {
   oi_local : forall h gh, In h (local_handles p) -> nth_error gs (Z.to_nat h) = Some gh ->
      ps_last_sent_out p < hlen (fst gh) /\
      forall f, ps_last_sent_out p < f ->
-       out_entry p f h = if f <? hlen (fst gh) then Some (mkpi f (hval (fst gh) f)) else None }.
+       out_entry p f h = if f <? hlen (fst gh) then Some (mkpi f (hval (fst gh) f)) else None;
+  oi_below : forall f m, assoc_get (ps_outgoing p) f = Some m ->
+     exists h gh, In h (local_handles p) /\ nth_error gs (Z.to_nat h) = Some gh /\ f < hlen (fst gh) }.
 Definition OIg (p : p2p) (gs : list ghost) : Prop := ps_remotes p <> [] -> OI p gs.
+
+Lemma OI_same_local : forall p p' gs gs', OI p gs -> ps_outgoing p' = ps_outgoing p ->
+  ps_last_sent_out p' = ps_last_sent_out p -> local_handles p' = local_handles p ->
+  (forall h, In h (local_handles p) ->
+     option_map fst (nth_error gs' (Z.to_nat h)) = option_map fst (nth_error gs (Z.to_nat h))) -> OI p' gs'.
+Proof.
+  intros p p' gs gs' [A B C D F] E1 E2 E3 E4. unfold ghost in *.
+  constructor; unfold out_entry in *; rewrite ?E1, ?E2, ?E3; try assumption.
+  - intros h gh' Hin Hg. pose proof (E4 h Hin) as X. unfold ghost in *. rewrite Hg in X. cbn [option_map] in X.
+    destruct (nth_error gs (Z.to_nat h)) as [gh|] eqn:G0; [|discriminate]. cbn [option_map] in X.
+    injection X as X. rewrite X. exact (D h gh Hin G0).
+  - intros f m G. destruct (F f m G) as (h & gh & Hin & Hg & Hlt). pose proof (E4 h Hin) as X. unfold ghost in *. rewrite Hg in X.
+    cbn [option_map] in X. destruct (nth_error gs' (Z.to_nat h)) as [gh'|] eqn:G0; [|discriminate]. cbn [option_map] in X.
+    injection X as X. exists h, gh'. split; [exact Hin|]. split; [exact G0|]. rewrite X. exact Hlt.
+Qed.
 
 Lemma OI_same : forall p p' gs gs', OI p gs -> ps_outgoing p' = ps_outgoing p -> ps_last_sent_out p' = ps_last_sent_out p ->
   local_handles p' = local_handles p -> map fst gs' = map fst gs -> OI p' gs'.
 Proof.
-  intros p p' gs gs' [A B C D] E1 E2 E3 E4.
-  constructor; unfold out_entry in *; rewrite ?E1, ?E2, ?E3; try assumption.
-  intros h gh Hin Hg.
-  assert (exists gh0, nth_error gs (Z.to_nat h) = Some gh0 /\ fst gh0 = fst gh) as (gh0 & G0 & G1).
-  { pose proof (f_equal (fun l => nth_error l (Z.to_nat h)) E4) as X. cbv beta in X. unfold ghost in *. rewrite !nth_error_map, Hg in X.
-    destruct (nth_error gs (Z.to_nat h)) as [gh0|]; [|discriminate]. exists gh0. split; [reflexivity|]. cbn in X. congruence. }
-  rewrite <- G1. exact (D h gh0 Hin G0).
+  intros p p' gs gs' H E1 E2 E3 E4. apply (OI_same_local p p' gs gs' H E1 E2 E3). intros h _.
+  pose proof (f_equal (fun l => nth_error l (Z.to_nat h)) E4) as X. cbv beta in X. unfold ghost in *.
+  rewrite !nth_error_map in X. exact X.
 Qed.
 
 Lemma zrange_ge : forall n a h, In h (zrange_from a n) -> a <= h.
@@ -508,12 +521,13 @@ Lemma OI_extend : forall p p' gs h hist low ext,
   OI p gs -> In h (local_handles p) -> nth_error gs (Z.to_nat h) = Some (hist, low) ->
   local_handles p' = local_handles p -> ps_last_sent_out p' = ps_last_sent_out p ->
   keys_sorted (ps_outgoing p') ->
-  (forall f m', assoc_get (ps_outgoing p') f = Some m' -> hlen hist <= f \/ exists m, assoc_get (ps_outgoing p) f = Some m) ->
+  (forall f m', assoc_get (ps_outgoing p') f = Some m' ->
+     hlen hist <= f < hlen hist + hlen ext \/ exists m, assoc_get (ps_outgoing p) f = Some m) ->
   (forall f' h', out_entry p' f' h' =
      if (hlen hist <=? f') && (f' <? hlen hist + hlen ext) && (h' =? h) then Some (mkpi f' (hval (hist ++ ext) f')) else out_entry p f' h') ->
   OI p' (updz gs (Z.to_nat h) (hist ++ ext, low)).
 Proof.
-  intros p p' gs h hist low ext [A B C D] Hin Hg El Es Hso Hk He.
+  intros p p' gs h hist low ext [A B C D F] Hin Hg El Es Hso Hk He.
   destruct (D h (hist, low) Hin Hg) as (D1 & D2). cbn [fst] in D1, D2.
   pose proof (local_handles_ge _ _ Hin) as Hh0.
   assert (Hhl : (Z.to_nat h < length gs)%nat) by (apply nth_error_Some; congruence).
@@ -535,6 +549,16 @@ Proof.
     + rewrite nth_error_updz_other in Hg0 by lia.
       destruct (D h0 gh Hin0 Hg0) as (E1 & E2). split; [exact E1|]. intros f Hf. rewrite He.
       destruct (Z.eqb_spec h0 h); [congruence|]. rewrite andb_false_r. apply E2. exact Hf.
+  - intros f m' G. rewrite El.
+    assert (Hla : hlen (hist ++ ext) = hlen hist + hlen ext) by (unfold hlen; rewrite app_length; lia).
+    assert (0 <= hlen ext) by (unfold hlen; lia).
+    destruct (Hk f m' G) as [R|(m & R)].
+    + exists h, (hist ++ ext, low). split; [exact Hin|]. split; [apply nth_error_updz_same; exact Hhl|]. cbn [fst]. lia.
+    + destruct (F f m R) as (h0 & gh0 & Hin0 & Hg0 & Hlt0). pose proof (local_handles_ge _ _ Hin0) as Hh00.
+      destruct (Z.eq_dec h0 h) as [->|Hne].
+      * rewrite Hg in Hg0. injection Hg0 as <-. cbn [fst] in Hlt0.
+        exists h, (hist ++ ext, low). split; [exact Hin|]. split; [apply nth_error_updz_same; exact Hhl|]. cbn [fst]. lia.
+      * exists h0, gh0. split; [exact Hin0|]. split; [rewrite nth_error_updz_other by lia; exact Hg0|exact Hlt0].
 Qed.
 
 Lemma hval_fill : forall kf v f, 0 <= f <= Z.of_nat kf -> hval (repeat 0 kf ++ [v]) f = if f =? Z.of_nat kf then v else 0.
@@ -556,7 +580,7 @@ Proof.
   intros p1 p2 p4 gs h hist low kf v actual st' HOI Hin Hg Hr Hcs Eb E4 Hact Hcase.
   assert (Hb : out_only p1 p2 /\ ps_last_sent_out p2 = ps_last_sent_out p1 /\
                (keys_sorted (ps_outgoing p1) -> keys_sorted (ps_outgoing p2)) /\
-               (forall f m', assoc_get (ps_outgoing p2) f = Some m' -> hlen hist <= f \/ exists m, assoc_get (ps_outgoing p1) f = Some m) /\
+               (forall f m', assoc_get (ps_outgoing p2) f = Some m' -> hlen hist <= f < actual \/ exists m, assoc_get (ps_outgoing p1) f = Some m) /\
                forall f' h', out_entry p2 f' h' = if (hlen hist <=? f') && (f' <? actual) && (h' =? h) then Some (blank f') else out_entry p1 f' h').
   { destruct (Z.eqb_spec (cs_last (stat_at p1 h)) NULL) as [En|En].
     - assert (hlen hist = 0) by (unfold NULL in *; lia).
@@ -575,7 +599,8 @@ Proof.
   - rewrite O4, O2. reflexivity.
   - rewrite L4. cbn [with_status ps_last_sent_out]. exact L2.
   - apply S4. cbn [with_status ps_outgoing]. apply S2. exact (oi_sorted _ _ HOI).
-  - intros f m' G. destruct (K4 f m' G) as [->|(m & R)]; [left; lia|]. cbn [with_status ps_outgoing] in R. eapply K2. exact R.
+  - intros f m' G. destruct (K4 f m' G) as [->|(m & R)]; [left; lia|]. cbn [with_status ps_outgoing] in R.
+    destruct (K2 f m R) as [X|X]; [left; lia|right; exact X].
   - intros f' h'. rewrite En4. change (out_entry (with_status p2 st') f' h') with (out_entry p2 f' h'). rewrite En2, Hext.
     destruct (Z.eqb_spec h' h) as [->|Hh]; rewrite ?andb_false_r, ?andb_true_r; [|reflexivity].
     assert (0 <= hlen hist) by (unfold hlen; lia).
@@ -607,6 +632,59 @@ Proof.
   - destruct H as (i & ->). reflexivity.
 Qed.
 
+Lemma next_complete_spec : forall p gs f, OI p gs -> local_handles p <> [] ->
+  (forall h, In h (local_handles p) -> exists gh, nth_error gs (Z.to_nat h) = Some gh) ->
+  next_complete p (local_handles p) = Some f ->
+  f = ps_last_sent_out p + 1 /\ exists m, assoc_get (ps_outgoing p) f = Some m /\ complete (local_handles p) m = true.
+Proof.
+  intros p gs f [A B C D F0] Hne Hgs En.
+  unfold next_complete in En. destruct (Z.eqb_spec (ps_last_sent_out p) NULL) as [E0|E0].
+  - destruct (find _ _) as [[f0 m0]|] eqn:Ef; [|discriminate]. injection En as ->.
+    destruct (find_first_sorted _ _ _ _ A Ef) as (G1 & G2 & G3). cbn [snd] in G2.
+    split; [|eauto]. pose proof (C _ _ G1) as Hlt.
+    destruct (Z.eq_dec f 0) as [->|Hnz]; [unfold NULL in *; lia|exfalso].
+    assert (exists h0, In h0 (local_handles p)) as (h0 & Hin0) by (destruct (local_handles p); [congruence|eexists; left; reflexivity]).
+    (* frame 0 is queued for every local player too *)
+    assert (H0 : forall h, In h (local_handles p) -> out_entry p 0 h <> None).
+    { intros h Hin. destruct (Hgs h Hin) as (gh & Hg). destruct (D h gh Hin Hg) as (_ & D2).
+      rewrite (D2 0) by (unfold NULL in *; lia).
+      rewrite complete_spec in G2. destruct (G2 h Hin) as (i & Gi).
+      pose proof (D2 f Hlt) as X. unfold out_entry in X. rewrite G1, Gi in X.
+      destruct (Z.ltb_spec f (hlen (fst gh))); [|discriminate].
+      assert ((0 <? hlen (fst gh)) = true) as -> by (unfold NULL in *; lia). discriminate. }
+    pose proof (H0 h0 Hin0) as X. unfold out_entry in X.
+    destruct (assoc_get (ps_outgoing p) 0) as [m'|] eqn:G0; [|congruence].
+    assert (Hc : complete (local_handles p) (snd (0, m')) = true).
+    { cbn [snd]. rewrite complete_spec. intros h Hin. specialize (H0 h Hin). unfold out_entry in H0. rewrite G0 in H0.
+      destruct (assoc_get m' h); [eauto|congruence]. }
+    rewrite (G3 0 m' ltac:(unfold NULL in *; lia) G0) in Hc. discriminate.
+  - destruct (assoc_get (ps_outgoing p) (ps_last_sent_out p + 1)) as [m0|] eqn:G1; [|discriminate].
+    destruct (complete (local_handles p) m0) eqn:Ec; [|discriminate]. injection En as <-. split; [reflexivity|eauto].
+Qed.
+
+(* one round leaves: the invariant for the state after it, and what the round carries *)
+Lemma OI_sent_one : forall p gs f m, OI p gs -> f = ps_last_sent_out p + 1 ->
+  assoc_get (ps_outgoing p) f = Some m -> complete (local_handles p) m = true ->
+  round_ok (local_handles p) gs f m /\ OI (with_outgoing p (assoc_del (ps_outgoing p) f) f) gs.
+Proof.
+  intros p gs f m [A B C D F0] Hf Gm Hcm.
+  assert (Hround : round_ok (local_handles p) gs f m).
+  { intros h gh Hin Hg. destruct (D h gh Hin Hg) as (_ & D2). pose proof (D2 f ltac:(lia)) as X. unfold out_entry in X. rewrite Gm in X.
+    rewrite complete_spec in Hcm. destruct (Hcm h Hin) as (i & Gi). rewrite Gi in X.
+    destruct (Z.ltb_spec f (hlen (fst gh))); [|discriminate]. split; [assumption|]. rewrite Gi. exact X. }
+  split; [exact Hround|].
+  constructor; cbn [with_outgoing ps_outgoing ps_last_sent_out].
+  - apply assoc_del_sorted. exact A.
+  - lia.
+  - intros f' m' G. rewrite assoc_get_del in G by exact A. destruct (Z.eqb_spec f f'); [discriminate|]. pose proof (C _ _ G). lia.
+  - intros h gh Hin Hg. change (local_handles (with_outgoing p (assoc_del (ps_outgoing p) f) f)) with (local_handles p) in Hin.
+    destruct (Hround h gh Hin Hg) as (R1 & _). split; [exact R1|].
+    intros f' Hf'. destruct (D h gh Hin Hg) as (_ & D2). rewrite <- (D2 f') by lia.
+    unfold out_entry. cbn [with_outgoing ps_outgoing]. rewrite assoc_get_del by exact A.
+    destruct (Z.eqb_spec f f'); [lia|reflexivity].
+  - intros f' m' G. rewrite assoc_get_del in G by exact A. destruct (Z.eqb_spec f f'); [discriminate|]. exact (F0 _ _ G).
+Qed.
+
 Lemma send_ready_go_out : forall n p o p' o' gs,
   send_ready_go n p (local_handles p) o = Ok (p', o') -> OI p gs -> local_handles p <> [] ->
   (forall h, In h (local_handles p) -> exists gh, nth_error gs (Z.to_nat h) = Some gh) ->
@@ -617,57 +695,71 @@ Proof.
   - injection H as <- <-. split; [exact HOI|]. split; [apply out_only_refl|]. exists []. rewrite app_nil_r. repeat split. constructor.
   - destruct (next_complete p (local_handles p)) as [f|] eqn:En.
     2:{ injection H as <- <-. split; [exact HOI|]. split; [apply out_only_refl|]. exists []. rewrite app_nil_r. repeat split. constructor. }
-    pose proof HOI as [A B C D].
-    (* the frame is the one after the last frame sent, and every local player has its input for it queued *)
-    assert (Hf : f = ps_last_sent_out p + 1 /\ exists m, assoc_get (ps_outgoing p) f = Some m /\ complete (local_handles p) m = true).
-    { unfold next_complete in En. destruct (Z.eqb_spec (ps_last_sent_out p) NULL) as [E0|E0].
-      - destruct (find _ _) as [[f0 m0]|] eqn:Ef; [|discriminate]. injection En as ->.
-        destruct (find_first_sorted _ _ _ _ A Ef) as (G1 & G2 & G3). cbn [snd] in G2.
-        split; [|eauto]. pose proof (C _ _ G1) as Hlt.
-        destruct (Z.eq_dec f 0) as [->|Hnz]; [unfold NULL in *; lia|exfalso].
-        assert (exists h0, In h0 (local_handles p)) as (h0 & Hin0) by (destruct (local_handles p); [congruence|eexists; left; reflexivity]).
-        (* frame 0 is queued for every local player too *)
-        assert (H0 : forall h, In h (local_handles p) -> out_entry p 0 h <> None).
-        { intros h Hin. destruct (Hgs h Hin) as (gh & Hg). destruct (D h gh Hin Hg) as (_ & D2).
-          rewrite (D2 0) by (unfold NULL in *; lia).
-          rewrite complete_spec in G2. destruct (G2 h Hin) as (i & Gi).
-          pose proof (D2 f Hlt) as X. unfold out_entry in X. rewrite G1, Gi in X.
-          destruct (Z.ltb_spec f (hlen (fst gh))); [|discriminate].
-          assert ((0 <? hlen (fst gh)) = true) as -> by (unfold NULL in *; lia). discriminate. }
-        pose proof (H0 h0 Hin0) as X. unfold out_entry in X.
-        destruct (assoc_get (ps_outgoing p) 0) as [m'|] eqn:G0; [|congruence].
-        assert (Hc : complete (local_handles p) (snd (0, m')) = true).
-        { cbn [snd]. rewrite complete_spec. intros h Hin. specialize (H0 h Hin). unfold out_entry in H0. rewrite G0 in H0.
-          destruct (assoc_get m' h); [eauto|congruence]. }
-        rewrite (G3 0 m' ltac:(unfold NULL in *; lia) G0) in Hc. discriminate.
-      - destruct (assoc_get (ps_outgoing p) (ps_last_sent_out p + 1)) as [m0|] eqn:G1; [|discriminate].
-        destruct (complete (local_handles p) m0) eqn:Ec; [|discriminate]. injection En as <-. split; [reflexivity|eauto]. }
-    destruct Hf as (Hf & m & Gm & Hcm). rewrite Gm in H.
+    destruct (next_complete_spec p gs f HOI Hne Hgs En) as (Hf & m & Gm & Hcm). rewrite Gm in H.
+    destruct (OI_sent_one p gs f m HOI Hf Gm Hcm) as (Hround & HOI1).
     set (p1 := with_outgoing p (assoc_del (ps_outgoing p) f) f) in *.
     set (o1 := if existsb ev_running (ps_remotes p) then add_rsend o m else o) in *.
-    (* the round *)
-    assert (Hround : round_ok (local_handles p) gs f m).
-    { intros h gh Hin Hg. destruct (D h gh Hin Hg) as (_ & D2). pose proof (D2 f ltac:(lia)) as X. unfold out_entry in X. rewrite Gm in X.
-      rewrite complete_spec in Hcm. destruct (Hcm h Hin) as (i & Gi). rewrite Gi in X.
-      destruct (Z.ltb_spec f (hlen (fst gh))); [|discriminate]. split; [assumption|]. rewrite Gi. exact X. }
-    assert (HOI1 : OI p1 gs).
-    { subst p1. constructor; cbn [with_outgoing ps_outgoing ps_last_sent_out].
-      - apply assoc_del_sorted. exact A.
-      - lia.
-      - intros f' m' G. rewrite assoc_get_del in G by exact A. destruct (Z.eqb_spec f f'); [discriminate|]. pose proof (C _ _ G). lia.
-      - intros h gh Hin Hg. change (local_handles (with_outgoing p (assoc_del (ps_outgoing p) f) f)) with (local_handles p) in Hin.
-        destruct (Hround h gh Hin Hg) as (R1 & _). split; [exact R1|].
-        intros f' Hf'. destruct (D h gh Hin Hg) as (_ & D2). rewrite <- (D2 f') by lia.
-        unfold out_entry. cbn [with_outgoing ps_outgoing]. rewrite assoc_get_del by exact A.
-        destruct (Z.eqb_spec f f'); [lia|reflexivity]. }
     change (local_handles p) with (local_handles p1) in H.
     destruct (IH p1 o1 p' o' gs H HOI1 Hne Hgs) as (HOI' & Oo & rounds & R1 & R2 & R3 & R4).
     split; [exact HOI'|]. split; [eapply out_only_trans; [apply out_only_with|exact Oo]|].
     subst o1. destruct (existsb ev_running (ps_remotes p)).
     + exists (m :: rounds). cbn [add_rsend o_remote_sends o_requests o_spec_sends] in R1, R2, R3.
       rewrite R1, <- app_assoc. split; [reflexivity|]. split; [exact R2|]. split; [exact R3|].
-      constructor; [|exact R4]. exists f. split; [unfold NULL in *; lia|exact Hround].
+      constructor; [|exact R4]. exists f. split; [pose proof (oi_last _ _ HOI); unfold NULL in *; lia|exact Hround].
     + exists rounds. split; [exact R1|]. split; [exact R2|]. split; [exact R3|exact R4].
+Qed.
+
+Lemma assoc_del_length {A} : forall (l : list (Z * A)) k m, assoc_get l k = Some m -> length l = S (length (assoc_del l k)).
+Proof.
+  induction l as [|[k0 v0] l IH]; intros k m H; cbn [assoc_get assoc_del] in *; [discriminate|].
+  destruct (k0 =? k); [reflexivity|]. cbn [length]. f_equal. eapply IH. exact H.
+Qed.
+Lemma assoc_get_In {A} : forall (l : list (Z * A)) k m, assoc_get l k = Some m -> In (k, m) l.
+Proof.
+  induction l as [|[k0 v0] l IH]; intros k m H; cbn [assoc_get] in H; [discriminate|].
+  destruct (Z.eqb_spec k0 k) as [->|Hne]; [injection H as ->; left; reflexivity|right; apply IH; exact H].
+Qed.
+
+(* with enough fuel, and every local player holding the same number of frames H, the loop sends everything:
+   nothing is left queued and the last frame sent is H - 1 *)
+Lemma send_ready_go_done : forall n p o p' o' gs H,
+  send_ready_go n p (local_handles p) o = Ok (p', o') -> OI p gs -> local_handles p <> [] ->
+  (forall h, In h (local_handles p) -> exists gh, nth_error gs (Z.to_nat h) = Some gh) ->
+  (length (ps_outgoing p) < n)%nat ->
+  (forall h gh, In h (local_handles p) -> nth_error gs (Z.to_nat h) = Some gh -> hlen (fst gh) = H) ->
+  ps_outgoing p' = [] /\ ps_last_sent_out p' = H - 1.
+Proof.
+  induction n as [|n IH]; intros p o p' o' gs H E HOI Hne Hgs Hfuel Hall; [lia|]. cbn [send_ready_go] in E.
+  destruct (next_complete p (local_handles p)) as [f|] eqn:En.
+  - destruct (next_complete_spec p gs f HOI Hne Hgs En) as (Hf & m & Gm & Hcm). rewrite Gm in E.
+    destruct (OI_sent_one p gs f m HOI Hf Gm Hcm) as (_ & HOI1).
+    set (p1 := with_outgoing p (assoc_del (ps_outgoing p) f) f) in *.
+    change (local_handles p) with (local_handles p1) in E.
+    apply (IH p1 _ p' o' gs H E HOI1 Hne Hgs); [|exact Hall].
+    subst p1. cbn [with_outgoing ps_outgoing]. rewrite (assoc_del_length _ _ _ Gm) in Hfuel. lia.
+  - injection E as <- <-. pose proof HOI as [A B C D F0].
+    assert (exists h0, In h0 (local_handles p)) as (h0 & Hin0) by (destruct (local_handles p); [congruence|eexists; left; reflexivity]).
+    destruct (Hgs h0 Hin0) as (gh0 & Hg0). destruct (D h0 gh0 Hin0 Hg0) as (Hlt0 & _). rewrite (Hall h0 gh0 Hin0 Hg0) in Hlt0.
+    assert (HS : ps_last_sent_out p = H - 1).
+    { destruct (Z.eq_dec (ps_last_sent_out p) (H - 1)) as [X|X]; [exact X|exfalso].
+      set (f1 := ps_last_sent_out p + 1) in *.
+      assert (H1 : forall h, In h (local_handles p) -> out_entry p f1 h <> None).
+      { intros h Hin. destruct (Hgs h Hin) as (gh & Hg). destruct (D h gh Hin Hg) as (_ & D2).
+        rewrite (D2 f1) by (subst f1; lia). rewrite (Hall h gh Hin Hg).
+        assert ((f1 <? H) = true) as -> by (subst f1; lia). discriminate. }
+      pose proof (H1 h0 Hin0) as Y. unfold out_entry in Y.
+      destruct (assoc_get (ps_outgoing p) f1) as [m1|] eqn:G1; [|congruence].
+      assert (Hc : complete (local_handles p) m1 = true).
+      { rewrite complete_spec. intros h Hin. specialize (H1 h Hin). unfold out_entry in H1. rewrite G1 in H1.
+        destruct (assoc_get m1 h); [eauto|congruence]. }
+      unfold next_complete in En. destruct (Z.eqb_spec (ps_last_sent_out p) NULL) as [E0|E0].
+      - destruct (find _ _) as [[f0 m0]|] eqn:Ef; [discriminate|].
+        pose proof (find_none _ _ Ef (f1, m1) (assoc_get_In _ _ _ G1)) as Z0. cbn [snd] in Z0. congruence.
+      - fold f1 in En. rewrite G1, Hc in En. discriminate. }
+    split; [|exact HS].
+    destruct (ps_outgoing p) as [|[k m] rest] eqn:Eo; [reflexivity|exfalso].
+    assert (Gk : assoc_get ((k, m) :: rest) k = Some m) by (cbn [assoc_get]; rewrite Z.eqb_refl; reflexivity).
+    pose proof (C _ _ Gk). destruct (F0 _ _ Gk) as (h & gh & Hin & Hg & Hlt). rewrite (Hall h gh Hin Hg) in Hlt. lia.
 Qed.
 
 (* ---------- register_local_inputs ---------- *)
